@@ -14,7 +14,7 @@ use oracle::{gf, segment};
 use serde_json::json;
 
 pub const ID: &str = "C02";
-pub const FAMS: [&str; 5] = ["cell-full", "cell-short", "cell-random", "crafted-blocks", "fingerprint-collision-pair"];
+pub const FAMS: [&str; 6] = ["cell-full", "cell-short", "cell-random", "crafted-blocks", "fingerprint-collision-pair", "no-level-given"];
 
 pub fn jobs(ctx: &Ctx) -> Vec<Job> {
     let caps = &ctx.caps;
@@ -58,6 +58,20 @@ pub fn jobs(ctx: &Ctx) -> Vec<Job> {
                     });
                 }
             }
+        }
+    }
+    // no level given: the symbol is a level-Q symbol (format information and block layout alike), also when the
+    // version is pinned and the payload would fit a stronger level in it
+    for v in 1..=40usize {
+        for i in 0..4usize {
+            k += 1;
+            let class = (k + i) % 3;
+            let h = caps.cap(v, oracle::tables::H, class);
+            let q = caps.cap(v, oracle::tables::Q, class);
+            let len = [h, (h / 2).max(1), q, h.saturating_sub(1)][i];
+            let version = if i == 2 && k % 2 == 0 { None } else { Some(v) };
+            let len = if version.is_none() { crate::cells::native_range(caps, v, oracle::tables::Q, class).1 } else { len };
+            jobs.push(Job { fam: FAMS[5], class, mode: if k % 3 == 0 { None } else { Some(class) }, level: None, version, mask: rotate_mask(k + v), len, gen: if k % 2 == 0 { GEN_RANDOM } else { GEN_RAMP }, seed: mix(ctx.seed, k as u64), ..Default::default() });
         }
     }
     // pairs of different payloads of one length whose DATA CODEWORDS (or whose bytes) collide under a popular cheap
@@ -295,7 +309,7 @@ pub fn run(ctx: &Ctx) -> Report {
     });
     let mut rep = Report::new(
         st,
-        "jobs = all 160 (version, level) cells x {capacity-filling, short} non-periodic payloads (thorough: + random lengths per cell), mask rotating over 0..7 and automatic; each build is read out from module values (unmask, zig-zag, de-interleave by the oracle's Table 9) and every block's syndromes S_0..S_{ec-1}, the remainder bits and the codeword count are checked; then floor(ec/2) random/burst codeword errors per block are injected and must be corrected; distinct key = (options, len, payload hash), non-trivial = non-empty payload",
+        "jobs = all 160 (version, level) cells x {capacity-filling, short} non-periodic payloads (thorough: + random lengths per cell), mask rotating over 0..7 and automatic; + no level given (pinned and automatic version, lengths that would also fit level H in the pinned version): the layout must be the level-Q one the format information announces; each build is read out from module values (unmask, zig-zag, de-interleave by the oracle's Table 9) and every block's syndromes S_0..S_{ec-1}, the remainder bits and the codeword count are checked; then floor(ec/2) random/burst codeword errors per block are injected and must be corrected; distinct key = (options, len, payload hash), non-trivial = non-empty payload",
     );
     rep.expected_sets = vec![("version_level", 160), ("blocklen_ec_pairs", 98)];
     rep.required_sets = vec![("version_level", 160)];
